@@ -100,6 +100,7 @@ func NewMachine(prog *ssa.Program, mainPkg *ssa.Package, sizes types.Sizes, solv
 	}
 	i.runtimeErrorString = runtimePkg.Type("errorString").Object().Type()
 	initReflect(i)
+	initReflectModel(i)
 	m := &Machine{i: i, Prog: prog, globalCells: make(map[*value]string)}
 	for _, pkg := range prog.AllPackages() {
 		for _, mem := range pkg.Members {
